@@ -2,8 +2,6 @@
 
 spec/Cleaner.tla (+ MC_Cleaner, Trace_Cleaner); harness/commitlog/cleaner_common_verif_test.go + c08/
 """
-import random
-
 from vf import core
 from checks import _cleaner as cl
 
@@ -32,38 +30,10 @@ def nontrivial(b):
     return b['cfg']['compact'] and cl.has_clean_after_roll(b)
 
 
+RULE = ('behaviours = TLC simulation of MC_Cleaner (seeded, Sim_Cleaner_C08*.cfg: compaction on, optional '
+        'message/byte retention); non-trivial = a clean runs after at least two records were appended; '
+        'distinct by hash of (options, step list with keys/sizes/timestamps)')
+
+
 def run(rep, tier, seed, replay):
-    rng = random.Random(seed)
-    if replay:
-        behaviours = replay['replay']['behaviours']
-        with core.scratch('c08') as d:
-            trace = cl.execute(behaviours, d, 'TestVerifC08', 'c08')
-            cl.judge(rep, 'C08', behaviours, trace, NAMES)
-        rep.cov['rule'] = 'replay of a saved stimulus'
-        rep.cov['samples'] = behaviours[:1]
-        return
-    # 1. design check
-    quick = tier == 'quick'
-    for cfg in (['MC_Cleaner.cfg'] if quick else ['MC_Cleaner.cfg', 'MC_Cleaner_thorough.cfg']):
-        res = core.tlc_check('MC_Cleaner.tla', cfg, timeout=3000, coverage=not quick)
-        rep.add_design(cfg[:-4], res)
-    # 2. behaviours from the specification
-    num = 700 if quick else 8000
-    depth = 16 if quick else 20
-    sims = core.tlc_simulate('MC_Cleaner.tla', 'Sim_Cleaner_C08.cfg' if quick else 'Sim_Cleaner_C08_thorough.cfg',
-                             num, depth, seed, timeout=1500)
-    behaviours = [cl.decorate(b, rng, i + 1) for i, b in enumerate(sims) if len(b) > 1]
-    # 3. execute on the real code, 4. judge with TLC
-    with core.scratch('c08') as d:
-        trace = cl.execute(behaviours, d, 'TestVerifC08', 'c08')
-        tr = cl.judge(rep, 'C08', behaviours, trace, NAMES)
-    rep.cov['traces_validated_against_impl'] = len(behaviours)
-    rep.cov['trace_lines_validated'] = tr['validated']
-    rep.cov['evaluations'] = len(behaviours)
-    rep.cov['distinct_nontrivial'] = len({core.sha(cl.shape(b)) for b in behaviours if nontrivial(b)})
-    rep.cov['rule'] = ('behaviours = TLC simulation of MC_Cleaner (seeded, Sim_Cleaner_C08*.cfg: compaction on, optional '
-                       'message/byte retention); non-trivial = a clean runs after at least two records were appended; '
-                       'distinct by hash of (options, step list with keys/sizes/timestamps)')
-    rep.cov['samples'] = behaviours[:2]
-    rep.assumptions += ['single appender (lock-step driver); Clean() parked at the clean.before_swap gate',
-                        'TLC evaluates the TLA+ predicates correctly']
+    cl.run_check(rep, tier, seed, replay, 'C08', NAMES, nontrivial, RULE)
